@@ -95,16 +95,10 @@ def run_models(chk, tier):
     """Returns {family: [cases]}"""
     jobs = []
     for fam in FAMILIES:
-        ftier = tier if fam == "options" else "quick"       # the other families are already exhaustive for their constants
+        ftier = tier if fam in ("options", "names") else "quick"       # the other families are already exhaustive for their constants
         jobs.append(("emit", fam, write_cfg("Dosini_%s_%s.cfg" % (fam, tier), fam, ftier, True)))
     for fault, fam in sorted(FAULTS.items()):
         jobs.append(("fault", fault, write_cfg("Dosini_fault_%s.cfg" % fault, fam, "quick", False, fault=fault, invariants=("RoundTrip",))))
-    jobs.append(("witness", "WitnessPairFolded", write_cfg("Dosini_witness_pair.cfg", "options", "quick", False, invariants=("WitnessPairFolded",))))
-    jobs.append(("witness", "WitnessMigration", write_cfg("Dosini_witness_migration.cfg", "variables", "quick", False, invariants=("WitnessMigration",))))
-    jobs.append(("witness", "WitnessLayering", write_cfg("Dosini_witness_layering.cfg", "variables", "quick", False, invariants=("WitnessLayering",))))
-    jobs.append(("witness", "WitnessFewerStages", write_cfg("Dosini_witness_fewer.cfg", "history", "quick", False, invariants=("WitnessFewerStages",))))
-    jobs.append(("witness", "WitnessPrefixNames", write_cfg("Dosini_witness_prefix.cfg", "names", "quick", False, invariants=("WitnessPrefixNames",))))
-    jobs.append(("witness", "WitnessManyStages", write_cfg("Dosini_witness_stages.cfg", "names", "quick", False, invariants=("WitnessManyStages",))))
     jobs.append(("coverage", "variables", write_cfg("Dosini_cov.cfg", "variables", "quick", False)))
 
     def one(job):
@@ -118,7 +112,7 @@ def run_models(chk, tier):
         except Exception as e:         # re-raised in the main thread
             return job, e
 
-    with ThreadPoolExecutor(max_workers=6) as ex:
+    with ThreadPoolExecutor(max_workers=8) as ex:
         results = list(ex.map(one, jobs))
     cases = {}
     for (kind, what, cfg), r in results:
@@ -142,9 +136,25 @@ def run_models(chk, tier):
             if r["violated"] != "RoundTrip":
                 raise MachineryError("Dosini.tla: fault %s does not violate RoundTrip (the invariant is vacuous): %s" % (what, r["out"][-1500:]))
             chk.cov.setdefault("faults_detected_on_model", []).append(what)
-        else:
-            if r["violated"] != what:
-                raise MachineryError("Dosini.tla: reachability witness %s not found: %s" % (what, r["out"][-1500:]))
+    # reachability witnesses: the interesting shapes are among the states TLC reached (every emitted case is a reached state
+    # "loaded" in which all invariants were evaluated)
+    def has(fam, pred):
+        return any(pred(c) for c in cases.get(fam, []))
+
+    witnesses = {
+        "pair of options folded into one component": has("options", lambda c: len(c["opts"]) == 2 and c["layer"] == "component"),
+        "global variable overridden by stage 1": has("variables", lambda c: any(x["scope"] == "global" and any(
+            y["scope"] == "stage1" and y["name"] == x["name"] for y in c["vars"]) for x in c["vars"])),
+        "global = component # stage": has("variables", lambda c: {(v["scope"], v["val"]) for v in c["vars"]} >= {("global", "A"), ("stage1", "B"), ("comp:c", "A")}),
+        "environment names gcc and gcc-7 together": has("names", lambda c: sorted(e["name"] for e in c["envs"]) == ["gcc", "gcc-7"]),
+        "stage index >= 10 with status": has("names", lambda c: c["nstages"] == CAT.MANY_STAGES and len(c["status"]) == CAT.MANY_STAGES),
+        "rewrite with fewer stages": has("history", lambda c: c["previous"]["nstages"] > c["nstages"]),
+        "rewrite with more stages": has("history", lambda c: c["previous"]["nstages"] < c["nstages"]),
+    }
+    missing = sorted(k for k, v in witnesses.items() if not v)
+    if missing:
+        raise MachineryError("Dosini.tla: reachability witnesses not found among the reached states: %s" % missing)
+    chk.cov["witnesses_reached"] = sorted(witnesses)
     return cases
 
 
